@@ -58,7 +58,8 @@ func (P) Rule() string {
 		"reset (to an earlier commit of the same database / the empty root / 5% a bad root) 2% of ops in modes 0,1; after reset/reopen/rollback occasionally a revert to an id issued before it (expected panic, tag malformed); " +
 		"mutator mix setcredits 3 addpreimage 3 addbal 10 subbal 5 setbal 4 addtok 14 subtok 6 settok 6 setnonce 6 setcode 5 setstate 10 create 4 suicide 4 addlog 4 addrefund 3 subrefund 1 prepare 2 snap 10 revert 6; " +
 		"amounts 0 / 1..9 / 100..999 / 2^64+small; every answer carries the getter dump of ALL live handles; " +
-		"non-trivial = the case contains a successful revert after a mutation, or a copy followed by a mutation, or (blocks) a rollback at a height > 0 that can roll back; distinct = distinct op sequence"
+		"layered values: for one storage slot / token / code / preimage / whole account the classes {absent, cleared, non-empty} are crossed over the layers {committed or origin-cached, dirty before the snapshot, dirty after it}, then snapshot-write-revert and a root (all modes; mode 2 commits only with a single handle); " +
+		"non-trivial = (a successful revert after a mutation, or a copy followed by a mutation, or (blocks) a rollback at a height > 0 that can roll back) AND at least one revert crossed an empty-over-non-empty layering; distinct = distinct op sequence"
 }
 
 // ---- universe ------------------------------------------------------------------------------
@@ -1285,6 +1286,7 @@ type caseGen struct {
 
 	copied  bool
 	nontriv bool
+	layered bool // a revert crossed an empty-over-non-empty layering of one slot-like value (layerPattern)
 	stale   bool // a deliberately stale revert was emitted (expected panic): the case carries tag malformed
 
 	dbOf    map[int]int // database group of a handle (copies share it)
@@ -1332,7 +1334,9 @@ func (c *caseGen) setAmount() string {
 
 func (c *caseGen) addr() int { return c.addrs[c.rn(len(c.addrs))] }
 
-func (c *caseGen) restricted() bool { return c.mode == 3 && !kvGhostStorage }
+func (c *caseGen) restricted() bool {
+	return (c.mode == 3 || (c.mode == 2 && c.kind == "journal")) && !kvGhostStorage
+}
 
 // addrFor picks the address of a setstate / suicide / create op; -1 if the case's restriction leaves none.
 func (c *caseGen) addrFor(name string) int {
@@ -1615,6 +1619,11 @@ func (c *caseGen) rootsAllowed() bool { return c.mode != 2 && !c.neg }
 
 // step emits one generic step (mutator / snap / revert / root / commit) on handle h.
 func (c *caseGen) step(h int) {
+	if !c.neg && c.kind != "malformed" && c.rn(100) < 9 {
+		// mode 2, single handle: the flat database may be committed (commit only, never a bare root)
+		c.layerPattern(h, c.rootsAllowed() || (c.mode == 2 && c.kind == "journal"))
+		return
+	}
 	if c.rootsAllowed() {
 		switch r := c.rn(100); {
 		case r < 5:
@@ -1686,6 +1695,135 @@ func (c *caseGen) zeroEntryPattern(h int) {
 	c.revertAt(h, j)
 }
 
+// ---- layered values ------------------------------------------------------------------------------
+//
+// Everything the journal undoes per slot has an "empty means absent" encoding somewhere: storage (SetState(k, empty) = delete),
+// token balances (zero entry vs absent), code (empty code = no code), preimages (empty value vs absent key), whole accounts
+// (empty account / touched / deleted / re-created).  layerPattern crosses, for ONE such slot, the value classes
+// {absent, cleared (empty), non-empty} over the three layers {committed or origin-cached, dirty before the snapshot, dirty after the
+// snapshot}: write layer 1 and persist it (root or commit), write layer 2, snapshot, write layer 3 (+ a few random ops), revert;
+// the dump after the revert is compared with the one at the snapshot (M1) and with the model, and a root (and, in twin cases, the
+// twin's root) follows.  Class 0 = absent (no write), 1 = cleared, 2 = non-empty.
+var layerFamilies = []string{"state", "state", "state", "tok", "tok", "code", "pre", "acct"}
+
+func (c *caseGen) layerWrite(h int, fam string, a, x, class, layer int) {
+	if class == 0 {
+		return
+	}
+	var op string
+	switch fam {
+	case "state":
+		v := "-"
+		if class == 2 {
+			v = svals[1+(layer+x)%3] // a different non-empty value per layer
+		}
+		op = fmt.Sprintf("setstate h=%d a=%d k=%d v=%s", h, a, x, v)
+	case "tok":
+		if class == 1 {
+			op = fmt.Sprintf("settok h=%d a=%d t=%d v=0", h, a, x)
+		} else if c.rn(2) == 0 {
+			op = fmt.Sprintf("settok h=%d a=%d t=%d v=%d", h, a, x, 3+layer)
+		} else {
+			op = fmt.Sprintf("addtok h=%d a=%d t=%d v=%d", h, a, x, 3+layer)
+		}
+		c.touched[pair{a, x}] = true
+	case "code":
+		v := "-"
+		if class == 2 {
+			v = codes[1+(layer+x)%4]
+		}
+		op = fmt.Sprintf("setcode h=%d a=%d code=%s", h, a, v)
+	case "pre":
+		v := "-"
+		if class == 2 {
+			v = []string{"01", "abcd", "ff00"}[layer%3]
+		}
+		op = fmt.Sprintf("addpreimage h=%d p=%d d=%s", h, x, v)
+	case "acct":
+		// cleared = an empty (touched) account or a destroyed one; non-empty = funded / re-created
+		if class == 1 {
+			op = []string{fmt.Sprintf("addbal h=%d a=%d v=0", h, a), fmt.Sprintf("suicide h=%d a=%d", h, a), fmt.Sprintf("addtok h=%d a=%d t=%d v=0", h, a, c.toks[0])}[c.rn(3)]
+		} else {
+			op = []string{fmt.Sprintf("addbal h=%d a=%d v=%d", h, a, 5+layer), fmt.Sprintf("create h=%d a=%d", h, a), fmt.Sprintf("setnonce h=%d a=%d n=%d", h, a, 1+layer)}[c.rn(3)]
+		}
+	}
+	c.emitH(h, op)
+	c.exists[a] = true
+	c.mutated(h)
+}
+
+// layerPattern: see above.  persist = the caller allows root/commit ops here (not in mode 2, not inside a block).
+func (c *caseGen) layerPattern(h int, persist bool) {
+	fam := layerFamilies[c.rn(len(layerFamilies))]
+	a, x := c.addr(), 0
+	switch fam {
+	case "state":
+		if a = c.addrFor("setstate"); a < 0 {
+			fam, a = "tok", c.addr()
+		}
+		x = c.rn(2) // two slots only: the patterns of one case keep hitting them
+	case "acct":
+		if a = c.addrFor("suicide"); a < 0 {
+			fam, a = "tok", c.addr()
+		}
+	}
+	switch fam {
+	case "tok":
+		x = c.toks[c.rn(len(c.toks))]
+	case "pre":
+		x = c.rn(nPre)
+	}
+	l1, l2, l3 := c.rn(3), c.rn(3), c.rn(3)
+	if fam == "pre" || !persist {
+		l1 = 0 // preimages are never persisted; without persistence layer 1 is whatever earlier blocks left
+	}
+	c.g.Count("layer:" + fam)
+	c.g.Count(fmt.Sprintf("layers:%d%d%d", l1, l2, l3))
+	persistOp := func() {
+		name := "root"
+		if c.mode >= 2 || c.rn(2) == 0 {
+			name = "commit"
+		}
+		c.rootOrCommit(h, name)
+	}
+	if l1 != 0 {
+		if l1 == 1 {
+			// cleared at the committed layer: first a non-empty committed value, then the clear is committed (origin-cached empty)
+			c.layerWrite(h, fam, a, x, 2, 0)
+			persistOp()
+		}
+		c.layerWrite(h, fam, a, x, l1, 0)
+		persistOp()
+	}
+	c.layerWrite(h, fam, a, x, l2, 1)
+	c.snap(h)
+	j := len(c.open[h]) - 1
+	c.layerWrite(h, fam, a, x, l3, 2)
+	for k := c.rn(3); k > 0; k-- {
+		name := c.pickOp(true)
+		c.mutator(h, name)
+	}
+	if c.rn(100) < 25 {
+		// a nested snapshot with a further write of the same slot, reverted first
+		c.snap(h)
+		c.layerWrite(h, fam, a, x, 1+c.rn(2), 1)
+		c.revertAt(h, len(c.open[h])-1)
+	}
+	c.revertAt(h, j)
+	// empty over non-empty (in either direction of the revert): the shapes an "empty = absent" shortcut gets wrong
+	if (l2 == 1 && l1 == 2 && l3 != 0) || (l3 == 1 && (l2 == 2 || (l2 == 0 && l1 == 2))) || (l2 == 1 && l3 == 2) {
+		c.layered = true
+		c.g.Count("layer:empty-over-nonempty")
+	}
+	if persist && c.rn(2) == 0 {
+		if c.mode >= 2 {
+			c.rootOrCommit(h, "commit")
+		} else {
+			c.rootOrCommit(h, "root") // the root right after the revert (mode 0: compared with the model's content class)
+		}
+	}
+}
+
 func (c *caseGen) badOp(h int) {
 	switch c.rn(8) {
 	case 0: // id never issued
@@ -1753,6 +1891,10 @@ func (c *caseGen) blockStep(h int) {
 		c.emit(re[c.rn(len(re))])
 		c.exists[a] = true
 		c.mutated(h)
+		return
+	}
+	if c.rn(100) < 12 {
+		c.layerPattern(h, false) // layer 1 = what the earlier blocks committed on the same two slots
 		return
 	}
 	name := c.pickOp(false)
@@ -1962,9 +2104,10 @@ func genCase(g *hx.Gen) {
 		tags = append(tags, "malformed")
 	}
 	c.ops[0] = fmt.Sprintf("%s mode=%d", hx.CaseOp(tags...), c.mode)
-	if c.nontriv {
+	nontriv := c.nontriv && (c.layered || c.kind == "malformed")
+	if nontriv {
 		g.Count("nontrivial")
 	}
 	g.Count(fmt.Sprintf("handles:%d", len(c.live)))
-	g.Case(fmt.Sprintf("%s mode=%d", c.kind, c.mode), c.ops, c.nontriv)
+	g.Case(fmt.Sprintf("%s mode=%d", c.kind, c.mode), c.ops, nontriv)
 }
